@@ -21,6 +21,12 @@ EXPECTED_TYPES = {  # (bare?, has control features) -> (by_group type, overall t
 }
 
 
+# Tolerance of every float-vs-exact comparison of this check, relative to max(1, |exact|).  MEASURED (review R3, clean tree,
+# seeds 0..2 of the quick generator, 3138 MetricFrame cases / 34008 compared cells): max deviation 9.9e-17 (one final
+# division; all sums are exact on the generated dyadic inputs; theoretical bound 0.5 ulp = 1.1e-16).  5e-15 = 50 x measured.
+TOL = 5e-15
+
+
 def dy(rng, hi=24):
     return str(F(rng.randint(1, hi), rng.choice([1, 1, 2, 4, 8])))
 
@@ -233,10 +239,19 @@ class CHECK(Check):
             "entry in sample_params, 8% colliding column names (the F19 shapes: 'a'+'b_c' vs 'a_b'+'c'; metric 'y' with parameter 'pred'/'true'); 12% are feature-name cases: "
             "containers Series(name None/str/int), DataFrame (duplicate / int labels), dict (int keys, ragged), list, list of "
             "lists, 1-d/2-d/3-d arrays for sensitive and optional control features, 1..4 rows. "
+            "Further restrictions of the generator (review R3): y_true in {0,1} (60%) or integers -2..5, y_pred in {0,1} or dyadic "
+            "k/{1,2,4} with -8 <= k <= 16; sample_weight positive, integers 1..5 or dyadic k/{1,2,4,8} with 1 <= k <= 24; the free "
+            "parameter a integers -3..7; ids = 2^i; every sample parameter is an array with exactly one value per row (or None) - "
+            "scalar or wrong-length sample parameters, for which MetricFrame broadcasts / raises ValueError, are not generated; "
+            "labels and predictions never NaN/None; one value type per feature column; at least one sensitive feature; metric and "
+            "keyword names from fixed lists (incl. blanks, prefixes of each other, 'None'); pool metrics never raise on a "
+            "non-empty slice; a permuted non-default index is carried by Series/DataFrame inputs only (y, features, sample "
+            "params). n = 0 is outside the property and not generated. "
             "distinct = distinct (features, data, metric specs); non-trivial = >= 2 rows. thorough additionally "
             "enumerates ALL assignments of <= 5 rows to 2x3 sensitive levels and of <= 5 rows to 2 control x 3 sensitive levels")
     explanation = ("theorems over Model/Frame.lean for an arbitrary metric function (all inputs, no size bound); correspondence: "
-                   "MetricFrame.by_group/overall/levels vs compiled driver (index order + values within 1e-12 relative); oracle: "
+                   "MetricFrame.by_group/overall/levels vs compiled driver (index order + values within 5e-15 relative to max(1,|v|); "
+                   "measured max deviation 9.9e-17 over 34008 cells); oracle: "
                    "first-principles slices + exact Fraction metrics. Index ORDER and the pandas result types are compared "
                    "as correspondence relations only (the property speaks about the index as a set).")
     trusted = ("pandas groupby/reindex/MultiIndex.from_product and np.unique ordering are modelled by 'sorted distinct values' / "
@@ -549,6 +564,14 @@ class CHECK(Check):
             return [f"fn.names {proto.strs(names_data_columns(case))} {names_token(case['sf'], case['n'])} "
                     f"{'absent' if case['cf'] is None else names_token(case['cf'], case['n'])}"]
         n = len(case["y"])
+        # the driver op fm.eval does not check the lengths of the sample-parameter arrays (Model/FrameMulti.lean pads a short
+        # column with 0 where real MetricFrame raises ValueError; C01.short_param_padded_artifact): never send such a line
+        for s in case["specs"]:
+            for pn, v in spec_params(s):
+                if v is not None and len(v) != n:
+                    raise ValueError(f"harness: sample parameter {pn!r} has {len(v)} values for {n} rows")
+        if len(case["pred"]) != n or any(len(c) != n for c in case["cf"] + case["sf"]):
+            raise ValueError("harness: column lengths of the case differ")
         ys, ps = proto.lst([F(v) for v in case["y"]]), proto.lst([F(v) for v in case["pred"]])
         cols = " ".join(proto.strs(c) for c in self._cols(case))
         ls = []
@@ -664,7 +687,7 @@ class CHECK(Check):
                     w = want.get(tuple(k))
                     if w is None:
                         continue
-                    if not mc.same(v, w):
+                    if not mc.same(v, w, TOL):
                         rel = "C01.byGroup_empty" if (w == mc.NAN or v == mc.NAN) else ("C01.byGroup_cell" if label == "by_group" else "C01.overall_eq")
                         probs.append(Problem("property", f"{nm}.{label}[{k}] = {v}, metric on exactly those rows = {w}", rel))
             if mo is not None:
@@ -681,7 +704,7 @@ class CHECK(Check):
                 # impl vs model (correspondence), only reported if the oracle did not already fail
                 if not any(p.kind == "property" for p in probs):
                     for label, tab, mt in (("by_group", got["by_group"], mby), ("overall", got["overall"], mov)):
-                        if [tuple(k) for k, _ in tab] != list(mt.keys()) or any(not mc.same(v, mt[tuple(k)]) for k, v in tab):
+                        if [tuple(k) for k, _ in tab] != list(mt.keys()) or any(not mc.same(v, mt[tuple(k)], TOL) for k, v in tab):
                             probs.append(Problem("correspondence", f"{nm}.{label}: impl {tab[:6]} vs model {list(mt.items())[:6]}", "C01.model"))
         if mo is not None and len(mo) > len(case["specs"]):
             probs.extend(self.judge_multi(case, o, mo[len(case["specs"])], any(p.kind == "property" for p in probs)))
@@ -727,7 +750,7 @@ class CHECK(Check):
             if not oracle_failed:
                 got = o["metrics"][nm]
                 for label, tab, mt in (("by_group", got["by_group"], mby), ("overall", got["overall"], mov)):
-                    if [tuple(k) for k, _ in tab] != list(mt.keys()) or any(not mc.same(v, mt[tuple(k)]) for k, v in tab):
+                    if [tuple(k) for k, _ in tab] != list(mt.keys()) or any(not mc.same(v, mt[tuple(k)], TOL) for k, v in tab):
                         probs.append(Problem("correspondence", f"{nm}.{label}: impl {tab[:6]} vs multi-metric model "
                                              f"{list(mt.items())[:6]}", "C01.multi_model"))
         return probs
